@@ -7,7 +7,7 @@ META = {
     "level": "model_checking",
     "technique": "TLA+ envelope spec (TxEnvelope.tla on RLP.tla: EIP-2718/155/2930/1559/4844/7702 + blob wrapper) model-checked with TLC over all single-edit mutations of one envelope per type; every mutated envelope replayed on types.Transaction; recorded random transactions and mutations validated against TxEnvelopeTrace.tla",
     "text": "TxEnvelope.tla gives the field schemas of the five transaction types, the binary and the RLP-list-element forms, the blob sidecar wrapper v0/v1, Marshal, the hash preimage (envelope without sidecar) and Size. TLC checks on every single-byte substitution/insertion/deletion of eight base envelopes that an accepted input re-marshals to itself in both forms, that both forms describe the same transaction and that the hash preimage is sidecar-free and itself decodable; each case is then executed on UnmarshalBinary and DecodeRLP and the code must agree on verdict, reason class, every field (through the public accessors), sidecar, MarshalBinary/EncodeRLP bytes, Hash = keccak(spec preimage) with and without sidecar and caches, Size, and survive a JSON round trip. Random signed transactions of every type (with v0/v1 sidecars, one real 128 kB blob) and byte mutations are recorded and validated event by event.",
-    "note": "Trusts TLC, keccak (crypto.Keccak256 as reference), the accessor-based abstraction of a transaction in harness/cmd/c02. JSON is decided as a round trip only; UnmarshalJSON refusing values that violate validity rules (signature ranges, empty blob-hash / authorization lists) is counted, not judged. TODO-KNOWN-FINDING C02-sidecar-size is tolerated and counted (see spec/codec/NOTES.md).",
+    "note": "Trusts TLC, keccak (crypto.Keccak256 as reference), the accessor-based abstraction of a transaction in harness/cmd/c02. JSON is decided as a round trip only; UnmarshalJSON refusing values that violate validity rules (signature ranges, empty blob-hash / authorization lists) is counted, not judged.",
     "design_ref": "3.1 C02",
 }
 
@@ -25,25 +25,13 @@ def run(ctx):
         raise InfraError("MCTxEnvelope printed no CASE lines")
     cp = os.path.join(ctx.scratch, "cases.json")
     write_json(cp, cases)
-    s, _ = ctx.drive(drv, ["-mode", "cases", "-in", cp], name="c02-cases", timeout=3600)
-    pending = int((s.get("extra") or {}).get("known_finding_sidecar_size", 0))
+    ctx.drive(drv, ["-mode", "cases", "-in", cp], name="c02-cases", timeout=3600)
     # V: random signed transactions, encodings, mutations
     tp = os.path.join(ctx.scratch, "trace.ndjson")
     s, _ = ctx.drive(drv, ["-mode", "record", "-trace", tp, "-n", ctx.pick(40, 1500), "-blobs", ctx.pick(1, 6)], name="c02-record", timeout=3600)
-    # VERIF_C02_STRICT=1: no tolerance for the pending finding (used to validate the candidate fix)
-    tcfg = "codec/TxEnvelopeTraceStrict" if os.environ.get("VERIF_C02_STRICT") else None
-    ok, consumed, total, r = ctx.validate("codec/TxEnvelopeTrace", tp, cfg=tcfg, ntraces=s["evaluations"], timeout=ctx.pick(1800, 7200))
+    ok, consumed, total, r = ctx.validate("codec/TxEnvelopeTrace", tp, ntraces=s["evaluations"], timeout=ctx.pick(1800, 7200))
     if not ok:
         ctx.reject_trace("codec/TxEnvelopeTrace", tp, consumed, r)
-    m = [l for l in r.stdout.splitlines() if l.startswith('<<"KNOWN"')]
-    if m:
-        try:
-            pending += int(json.loads(json.loads(m[-1][len('<<"KNOWN", '):-2])))
-        except Exception:
-            pass
-    if pending:
-        ctx.notes.append("TODO-KNOWN-FINDING C02-sidecar-size: Size() of a blob transaction with a sidecar whose content is in a smaller RLP length class than the wrapper list is off by the header difference; tolerated %d times in this run (pending coordinator decision)" % pending)
-        ctx.log("pending finding C02-sidecar-size tolerated %d times" % pending)
     return ctx.finish(rule="MC/R: all single-byte substitutions (edit alphabet), insertions and deletions at every position of 8 base envelopes; V: random signed transactions + byte mutations",
                       assumptions=["blob contents are opaque 131072-byte strings (KZG not interpreted)",
                                    "JSON decided as round trip on values UnmarshalJSON admits"])
